@@ -613,8 +613,14 @@ pub fn gen_c13(rng: &mut Rng) -> Case {
   let mut target: Vec<String> = root_rel[..root_rel.len() - depth_up].iter().map(|s| s.to_string()).collect();
   target.push("outside".into());
   target.push("secret".into());
-  let kind = rng.below(10);
+  let kind = rng.below(13);
   let ups = vec!["..".to_string(); depth_up];
+  // a long name made of multi-byte characters (diagnostics that abbreviate must not cut inside a character)
+  let long_name = |rng: &mut Rng| -> String {
+    let unit = *rng.pick(&["Русская классическая музыка ", "日本語のとても長い名前 ", "ünïcödé-näme-", "🎉🎶 "]);
+    let pad = "x".repeat(rng.below(4) as usize);
+    format!("{pad}{}", unit.repeat(rng.range(2, 6) as usize))
+  };
   let path: Vec<String> = match kind {
     0 => ups.iter().cloned().chain(["outside".to_string(), "secret".to_string()]).collect(),
     1 => ["sub".to_string()].into_iter().chain(ups.iter().cloned()).chain(["..".to_string(), "outside".to_string(), "secret".to_string()]).collect(),
@@ -627,12 +633,18 @@ pub fn gen_c13(rng: &mut Rng) -> Case {
     7 => vec![format!("{}\\outside\\secret", ups.join("\\"))],
     8 => vec![format!("sub\\..\\{}\\outside\\secret", ups.join("\\"))],
     9 => vec![ups.iter().map(|_| *rng.pick(&["..%2f", "..%2F", "%2e%2e/", "..\u{2215}", "..\u{ff0f}", "..;"])).collect::<Vec<_>>().join("") + "outside", "secret".to_string()],
+    10 => ups.iter().cloned().chain([long_name(rng), "outside".to_string(), "secret".to_string()]).collect(),
+    11 => vec![long_name(rng)].into_iter().chain(ups.iter().cloned()).chain(["..".to_string(), "outside".to_string(), "secret".to_string()]).collect(),
+    12 => {
+      // absolute component after an ordinary one (pushing an absolute path replaces everything before it)
+      vec!["sub".to_string(), "<ABS>".to_string()]
+    }
     _ => {
       // absolute component: resolved at run time by `observe_c13`
       vec!["<ABS>".to_string()]
     }
   };
-  if kind == 1 || kind == 3 {
+  if kind == 1 || kind == 3 || kind == 12 {
     c.tree.insert("sub".into(), Node::Dir);
   }
   let pos = rng.below(c.files.len() as u64 + 1) as usize;
@@ -660,15 +672,17 @@ fn run_cases(ctx: &Ctx, prop: &str, cases: Vec<Case>, report: &mut Report) {
     .into_par_iter()
     .map(|mut c| {
       // absolute escape: substitute the real absolute path of the planted secret
-      if c.files.iter().any(|f| f.path == vec!["<ABS>".to_string()]) {
+      if c.files.iter().any(|f| f.path.iter().any(|x| x == "<ABS>")) {
         // sandbox path is only known inside observe; emulate by planting at a fixed absolute location under work
         let abs = ctx.work.join(format!("abs-secret-{}-{}", std::process::id(), fnv_str(&c.to_json().to_string())));
         std::fs::create_dir_all(&abs).unwrap();
         let (_, secret) = c.outside.pop().unwrap();
         std::fs::write(abs.join("secret"), &secret).unwrap();
         for f in c.files.iter_mut() {
-          if f.path == vec!["<ABS>".to_string()] {
-            f.path = vec![abs.join("secret").to_string_lossy().into_owned()];
+          for x in f.path.iter_mut() {
+            if x == "<ABS>" {
+              *x = abs.join("secret").to_string_lossy().into_owned();
+            }
           }
         }
         let o = observe(ctx, &c);
